@@ -10,7 +10,7 @@
    the context's groups (From/To = the groups' replica ids, same names, no snapshot / reject /
    reject hint / context, node ids = the two ends of the stream), and frames respect the decoder's
    size limit. *)
-From ZV Require Import Common.Bytes Stream.Consts Stream.Proto Stream.Model Stream.ProofsProto Stream.Proofs Stream.Wf Stream.ProofsWf Stream.ProofsTotal Stream.Examples.
+From ZV Require Import Common.Bytes Stream.Consts Stream.Proto Stream.Model Stream.ProofsProto Stream.Proofs Stream.Wf Stream.ProofsWf Stream.ProofsTotal Stream.ProofsConn Stream.Examples.
 Open Scope N_scope.
 
 (* (1) msgappv2: every well-formed sequence, of any number of interleaved raft groups, is read back
@@ -42,6 +42,33 @@ Theorem C16_v2_coupling : forall local remote ms,
   v2_dec_state (S (length (v2_encode_all st0 ms))) local remote st0 (v2_encode_all st0 ms) = v2_enc_state st0 ms.
 Proof. exact v2_coupling_run. Qed.
 Print Assumptions C16_v2_coupling.
+
+(* (2') the connection lifecycle. A peer stream is a sequence of connections (the peer re-dials); for every
+        connection streamWriter.run builds a new encoder and streamReader.decodeLoop a new decoder, so both
+        ends start each connection from the zero context [conns_encode] / [conns_run]. However a sequence of the
+        stream's traffic is cut into connections, every connection's bytes decode to exactly the messages
+        written to it. *)
+Theorem C16_connections_roundtrip : forall local remote conns,
+  forallb (v2_seq_ok local remote st0) conns = true ->
+  conns_run local remote (conns_encode conns) = map (fun ms => (ms, DEof)) conns.
+Proof. exact conns_roundtrip. Qed.
+Print Assumptions C16_connections_roundtrip.
+
+Theorem C16_connections_any_split : forall local remote conns,
+  send_wf local remote (concat conns) = true ->
+  conns_run local remote (conns_encode conns) = map (fun ms => (ms, DEof)) conns.
+Proof. exact conns_roundtrip_split. Qed.
+Print Assumptions C16_connections_any_split.
+
+(* ... and attach MUST reset the encoder: a writer that kept its encoder (term / index / group cursor) across
+   a re-dial [conns_encode_carrying] would send the first continuing append of the new connection in the
+   compact form, which the new connection's fresh decoder cannot resolve *)
+Theorem C16_carried_encoder_refuted :
+  exists conns, (send_wf 2 1 (concat conns) = true) /\
+    (conns_run 2 1 (conns_encode conns) = map (fun ms => (ms, DEof)) conns) /\
+    (conns_run 2 1 (conns_encode_carrying st0 conns) = [([exA1], DEof); ([], DMismatch)]).
+Proof. exists [[exA1]; [exA2; exA3]]. repeat split; vm_compute; reflexivity. Qed.
+Print Assumptions C16_carried_encoder_refuted.
 
 (* (3) truncation, for ARBITRARY byte streams (valid, corrupted, anything): the reader run on a prefix
        p of a stream p ++ q delivers a prefix of what it delivers on p ++ q and then stops with an
